@@ -45,6 +45,25 @@ func c12ProcPlus(t *rapid.T) {
 		}
 		time.Sleep(2 * time.Millisecond) // selection order is by time
 	}
+	// then, now and then, everything else at once: what was selected by hand was selected earlier
+	if k > 0 && rapid.IntRange(0, 2).Draw(t, "selectAll") == 0 {
+		s.Post("select-all")
+		history = append(history, "POST select-all")
+		for i := 0; i < n; i++ {
+			already := false
+			for _, j := range selected {
+				if i == j {
+					already = true
+				}
+			}
+			if !already {
+				selected = append(selected, i)
+			}
+		}
+		if _, ok := s.WaitFor(10, func(st *Status) bool { return len(st.Selected) == n }); !ok {
+			t.Fatalf("select-all does not settle\nhistory:\n  %s", strings.Join(history, "\n  "))
+		}
+	}
 	cur := rapid.IntRange(0, n-1).Draw(t, "pointer")
 	s.Post(fmt.Sprintf("pos(%d)", cur+1))
 	history = append(history, fmt.Sprintf("POST pos(%d)", cur+1))
